@@ -160,9 +160,12 @@ def forbidden_scan():
     return bad
 
 
-def theorem_names(prop):
+def theorem_names(prop, prefix=None):
     src = strip_comments(open(os.path.join(COQ, "props", prop + ".v")).read())
-    return re.findall(r"^\s*(?:Theorem|Corollary)\s+(\w+)", src, re.M)
+    names = re.findall(r"^\s*(?:Theorem|Corollary)\s+(\w+)", src, re.M)
+    if prefix:
+        names = [n for n in names if n.startswith(prefix)]
+    return names
 
 
 ALLOWED_AXIOMS = set()   # target: every property theorem closed under the global context
@@ -172,14 +175,19 @@ def coqc_file(path, timeout=1200):
     return run(["coqc", "-q", "-noglob", "-Q", COQ, "RCE", path], timeout, cwd=os.path.dirname(path))
 
 
-def print_assumptions(prop):
-    """Re-run Print Assumptions for every theorem of props/<prop>.v (always executed, even when the
-    .vo is cached).  Returns (dict name -> 'closed' | [axioms], raw)."""
+def print_assumptions(prop, extra=()):
+    """Re-run Print Assumptions for every theorem of props/<prop>.v and of the extra props files
+    (pairs (module, name prefix or None)); always executed, even when the .vo is cached.
+    Returns (dict name -> 'closed' | [axioms], raw)."""
     names = theorem_names(prop)
+    for mod, pre in extra:
+        names += theorem_names(mod, pre)
     os.makedirs(CASES, exist_ok=True)
     path = os.path.join(CASES, "assume_%s_%d.v" % (prop, os.getpid()))
     with open(path, "w") as f:
         f.write("From RCE Require Import props.%s.\n" % prop)
+        for mod, pre in extra:
+            f.write("From RCE Require Import props.%s.\n" % mod)
         for n in names:
             f.write('Print Assumptions %s.\n' % n)
     rc, so, se = coqc_file(path)
@@ -203,6 +211,10 @@ def print_assumptions(prop):
     return res, so
 
 
+EXTRA_PROPS = {"C09": [("C09chess", None)], "C11": [("C11chess", None)], "C13": [("ChessInstances", "C13")],
+               "C14": [("ChessInstances", "C14"), ("C14syntax", None)], "C16": [("ChessInstances", "C16")]}
+
+
 def proof_gate(prop, extra_targets=()):
     """Compile props/<prop>.v (and everything it needs) and audit it.
     Returns dict(ok, obligations, discharged, failures[list of str], log)."""
@@ -211,9 +223,12 @@ def proof_gate(prop, extra_targets=()):
     bad = forbidden_scan()
     if bad:
         out["failures"].append("forbidden constructs: " + "; ".join(bad[:10]))
-    ok, mlog = coq_make(["props/%s.vo" % prop] + list(extra_targets))
+    extra = [e for e in EXTRA_PROPS.get(prop, []) if os.path.exists(os.path.join(COQ, "props", e[0] + ".v"))]
+    ok, mlog = coq_make(["props/%s.vo" % prop] + ["props/%s.vo" % e[0] for e in extra] + list(extra_targets))
     out["log"] = mlog[-6000:]
     names = theorem_names(prop)
+    for mod, pre in extra:
+        names += theorem_names(mod, pre)
     out["theorems"] = names
     out["obligations"] = len(names)
     if not ok:
@@ -223,7 +238,7 @@ def proof_gate(prop, extra_targets=()):
         out["failed_files"] = [x[0] for x in m]
         out["wall_s"] = time.time() - t0
         return out
-    res, raw = print_assumptions(prop)
+    res, raw = print_assumptions(prop, extra)
     if res is None:
         out["failures"].append("Print Assumptions failed: " + raw[-1000:])
     else:
